@@ -7,4 +7,4 @@ Extraction Language OCaml.
 Extraction "../ocaml/gen/objects_model.ml" wire_anchor
   Objects.build Objects.layers Objects.find_field Objects.has_field Objects.has_visible_field
   Objects.get_fields_order Objects.get_visible_fields_order Objects.obj_length
-  Objects.eval_field Objects.manifest Objects.extend Objects.remove_key Objects.empty_obj.
+  Objects.eval_field Objects.manifest Objects.index_field Objects.manifest_checked Objects.check_asserts Objects.extend Objects.remove_key Objects.empty_obj.
